@@ -1796,7 +1796,10 @@ func (w *transformingWriter) Write(data []byte) (n int, err error) {
 }
 
 func (w *transformingWriter) Close() error {
-	if w.expectingBytes == -1 {
+	if w.err != nil {
+		// The response already ended (with an error, or with the end of the
+		// stream); nothing more may be written.
+	} else if w.expectingBytes == -1 {
 		if err := w.flushMessage(); err != nil {
 			w.rw.reportError(err)
 		}
